@@ -34,6 +34,19 @@ M = [
  ('M9 crossSumBestAtBelief(b, projs) keeps the first action on ties AND on improvements below 0.05 (LinearSupport supports)',
   'include/AIToolbox/POMDP/Utils.hpp', 'POMDP/LinearSupportTests',
   "            if (tmp > bestValue) {\n                bestValue = tmp;\n                std::swap(entry, helper);", "            if (tmp > bestValue + 0.05) {\n                bestValue = tmp;\n                std::swap(entry, helper);"),
+ # ---- round 2 (library with the C02 fixes applied)
+ ('N1 RTBSS::upperBound accumulates before discounting (sum_{t=0..h-1}: too small a bound exactly when maxR < 0)',
+  'include/AIToolbox/POMDP/Algorithms/RTBSS.hpp', 'POMDP/RTBSSTests',
+  "            d *= model_.getDiscount();\n            bound += d * maxR_;", "            bound += d * maxR_;\n            d *= model_.getDiscount();"),
+ ('N2 LinearSupport erases the agenda entries the new support does NOT improve (obsolete test flipped)',
+  'include/AIToolbox/POMDP/Algorithms/LinearSupport.hpp', 'POMDP/LinearSupportTests',
+  "if (it->belief.dot(best.support->values) > it->currentValue)", "if (it->belief.dot(best.support->values) <= it->currentValue)"),
+ ('N3 findVerticesNaive no longer snaps the boundary coordinates to exactly 0 (QR noise -1e-17 rejects face vertices)',
+  'include/AIToolbox/Utils/Polytope.hpp', 'MDP/UtilsPolytopeTests',
+  "                        result[(*enumerator)[i] - alphasSize] = 0.0;", "                        (void)0;"),
+ ('N4 Witness::addVariations stops at the first already-tried variation of an observation',
+  'include/AIToolbox/POMDP/Algorithms/Witness.hpp', 'POMDP/WitnessTests',
+  "if ( triedVectors_.find(vObs) != std::end(triedVectors_) ) continue;", "if ( triedVectors_.find(vObs) != std::end(triedVectors_) ) break;"),
  ('H1 harmless: RTBSS prunes on uBound >= max instead of > (same value, same first action)',
   'include/AIToolbox/POMDP/Algorithms/RTBSS.hpp', 'POMDP/RTBSSTests',
   "if ( uBound > max ) {", "if ( uBound >= max ) {"),
